@@ -1,8 +1,17 @@
 (* Model of the readers (serde_arrow/src/internal/deserialization/*, utils/array_view_ext.rs) as
    seen through deserialize_any: a stateless function of (view, index) with the index arithmetic
-   of each accessor written out - validity bit offsets, offset pairs, absolute child positions.
-   Kinds: Null, Boolean, primitives, Utf8/LargeUtf8/Binary/LargeBinary, List/LargeList, Struct.
-   Every bounds violation is an error value. *)
+   of each accessor written out - validity bit offsets, offset pairs, absolute child positions,
+   fixed-size strides, dense-union (type id, offset) pairs, dictionary keys, view descriptors.
+   All kinds of the dispatcher ArrayDeserializer::new are covered (Float16 values and the
+   Decimal128 text are presented through prim_present).
+
+   Every bounds violation is an error value: the model follows the code after the fix: commits
+   recorded in KNOWN_FINDINGS.txt (C17); it contains no Panic.
+
+   Index conversions are done in Z and clamped by the child's length before they become unary
+   numbers (a corrupted 64-bit offset must not be turned into a nat); Reader_proofs.v shows that
+   the clamp is only an evaluation device: reads at or beyond the length of a view are errors
+   (read_oob), so the clamped loops equal the unclamped ones (range_z_faithful). *)
 From Verif Require Export Present.
 Local Open Scope nat_scope.
 
@@ -18,20 +27,48 @@ Definition prim_present (k : PrimKind) (z : Z) : option RVal :=
   | _ => Some (RInt z)
   end.
 
-Definition modelled_prim (k : PrimKind) : bool := match k with PF16 | PDecimal _ _ => false | _ => true end.
+Definition modelled_prim (k : PrimKind) : bool := match k with PF16 => false | _ => true end.
 
-Definition to_usize (z : Z) : Outcome nat := if (z <? 0)%Z then Err else Ok (Z.to_nat z).
+Definition to_usize (z : Z) : Outcome Z := if (z <? 0)%Z then Err else Ok z.
 
-(* the pair of offsets of slot idx *)
-Definition offset_pair (offs : list Z) (idx : nat) : Outcome (nat * nat) :=
+(* the pair of offsets of slot idx (try_into_usize on both) *)
+Definition offset_pair (offs : list Z) (idx : nat) : Outcome (Z * Z) :=
   match nth_error offs idx, nth_error offs (S idx) with
   | Some s, Some e => do s' <- to_usize s ;; do e' <- to_usize e ;; Ok (s', e')
   | _, _ => Err
   end.
 
+(* child.at(z): positions at or beyond the child's length are errors (read_oob) *)
+Definition at_z {A} (rd : nat -> Outcome A) (len : nat) (z : Z) : Outcome A :=
+  if (z <? 0)%Z then Err else if (Z.of_nat len <=? z)%Z then Err else rd (Z.to_nat z).
+
+(* `while start < end { item.at(start); start += 1 }` over a child of length len *)
+Definition range_z {A} (rd : nat -> Outcome A) (len : nat) (s e : Z) : Outcome (list A) :=
+  if (e <=? s)%Z then Ok []
+  else if (Z.of_nat len <? e)%Z then
+         (if (Z.of_nat len <=? s)%Z then Err
+          else do _ <- mapM rd (seq (Z.to_nat s) (len - Z.to_nat s)) ;; Err)
+       else mapM rd (seq (Z.to_nat s) (Z.to_nat (e - s))).
+
+(* BytesView::get *)
+Definition bytes_get (v : option Bitmap) (offs : list Z) (data : list N) (idx : nat) : Outcome (option bytes) :=
+  if Nat.leb (length offs) (S idx) then Err
+  else do ok <- valid_at v idx ;;
+       if negb ok then Ok None
+       else do se <- offset_pair offs idx ;;
+            let '(s, e) := se in
+            if (s <=? e)%Z && (e <=? Z.of_nat (length data))%Z
+            then Ok (Some (firstn (Z.to_nat (e - s)) (skipn (Z.to_nat s) data)))
+            else Err.
+
+Definition text_or_bytes (is_text : bool) (x : bytes) : Outcome RVal :=
+  if is_text then (if utf8_valid x then Ok (RStr x) else Err) else Ok (RBytes x).
+
+Definition is_null_arr (a : Arr) : bool := match a with ANull _ => true | _ => false end.
+
 Fixpoint read (a : Arr) (idx : nat) {struct a} : Outcome RVal :=
   match a with
-  | ANull _ => Ok RNone
+  | ANull len => if Nat.leb len idx then Err else Ok RNone
   | ABool len v vals =>
     if Nat.leb len idx then Err
     else do ok <- valid_at v idx ;;
@@ -43,22 +80,36 @@ Fixpoint read (a : Arr) (idx : nat) {struct a} : Outcome RVal :=
                 if ok then of_option (prim_present k z) else Ok RNone
     end
   | ABytes k v offs data =>
-    if Nat.leb (length offs) (S idx) then Err
+    do r <- bytes_get v offs data idx ;;
+    match r with None => Ok RNone | Some x => text_or_bytes (is_utf8_kind k) x end
+  | AView k v descs bufs =>
+    match nth_error descs idx with
+    | None => Err
+    | Some d => do ok <- valid_at v idx ;;
+                if negb ok then Ok RNone
+                else match view_bytes bufs d with
+                     | Some x => text_or_bytes (match k with KUtf8View => true | KBinaryView => false end) x
+                     | None => Err
+                     end
+    end
+  | AFixedBin n v data =>
+    if Nat.leb (arr_len a) idx then Err
     else do ok <- valid_at v idx ;;
          if negb ok then Ok RNone
-         else do se <- offset_pair offs idx ;;
-              let '(s, e) := se in
-              if Nat.leb s e && Nat.leb e (length data) then
-                let x := firstn (e - s) (skipn s data) in
-                if is_utf8_kind k then (if utf8_valid x then Ok (RStr x) else Err) else Ok (RBytes x)
-              else Err
+         else Ok (RBytes (firstn (Z.to_nat n) (skipn (idx * Z.to_nat n) data)))
   | AList k v offs _ elems =>
     if Nat.leb (length offs) (S idx) then Err
     else do ok <- valid_at v idx ;;
          if negb ok then Ok RNone
          else do se <- offset_pair offs idx ;;
               let '(s, e) := se in
-              do items <- mapM (read elems) (seq s (e - s)) ;; Ok (RSeq items)
+              do items <- range_z (read elems) (arr_len elems) s e ;; Ok (RSeq items)
+  | AFixedList len n v _ elems =>
+    if Nat.leb len idx then Err
+    else do ok <- valid_at v idx ;;
+         if negb ok then Ok RNone
+         else do items <- range_z (read elems) (arr_len elems) (Z.of_nat idx * n) ((Z.of_nat idx + 1) * n) ;;
+              Ok (RSeq items)
   | AStruct len v fields =>
     if Nat.leb len idx then Err
     else do ok <- valid_at v idx ;;
@@ -69,30 +120,111 @@ Fixpoint read (a : Arr) (idx : nat) {struct a} : Outcome RVal :=
                            | (m, c) :: r => do x <- read c idx ;; do rest <- go r ;; Ok ((RStr (m_name m), x) :: rest)
                            end) fields ;;
               Ok (RMap kvs)
-  | _ => Err
+  | AMap v offs _ _ _ keys values =>
+    if Nat.leb (length offs) (S idx) then Err
+    else do ok <- valid_at v idx ;;
+         if negb ok then Ok RNone
+         else do se <- offset_pair offs idx ;;
+              let '(s, e) := se in
+              do kvs <- range_z (fun i => do k <- read keys i ;; do x <- read values i ;; Ok (k, x))
+                                (Nat.min (arr_len keys) (arr_len values)) s e ;;
+              Ok (RMap kvs)
+  | ADict keys values =>
+    match keys, values with
+    | APrim (PInt _) kv kvals, ABytes bk None offs data =>
+      match nth_error kvals idx with
+      | None => Err
+      | Some z =>
+        do ok <- valid_at kv idx ;;
+        if negb ok then Ok RNone
+        else if (z <? 0)%Z || (9223372036854775807 <? z)%Z then Err
+             else do r <- at_z (bytes_get None offs data) (length offs - 1) z ;;
+                  match r with Some x => text_or_bytes true x | None => Err end
+      end
+    | _, _ => Err
+    end
+  | AUnion types offs fields =>
+    match nth_error types idx, nth_error offs idx with
+    | Some t, Some o =>
+      do o' <- to_usize o ;;
+      if (t <? 0)%Z then Err
+      else (fix pick (fs : list (Z * Meta * Arr)) (n : nat) {struct fs} : Outcome RVal :=
+              match fs with
+              | [] => Err
+              | (_, m, c) :: r =>
+                match n with
+                | O => if is_null_arr c then Ok (REnum (RStr (m_name m)) RUnit)
+                       else do x <- at_z (read c) (arr_len c) o' ;; Ok (REnum (RStr (m_name m)) x)
+                | S n' => pick r n'
+                end
+              end) fields (Z.to_nat t)
+    | _, _ => Err
+    end
   end.
+
+(* ArrayDeserializer::new: what is refused when the reader tree is built *)
+Definition lower (c : N) : N := if (65 <=? c)%N && (c <=? 90)%N then (c + 32)%N else c.
+Definition utc_tz (tz : option bytes) : bool :=
+  match tz with None => true | Some t => bytes_eqb (map lower t) (b "utc") end.
+
+Fixpoint consecutive (i : Z) (fs : list (Z * Meta * Arr)) : bool :=
+  match fs with [] => true | (t, _, _) :: r => (t =? i)%Z && consecutive (i + 1) r end.
+
+Fixpoint construct (a : Arr) : bool :=
+  match a with
+  | ANull _ | ABool _ _ _ | ABytes _ _ _ _ | AView _ _ _ _ => true
+  | APrim (PTimestamp _ tz) _ _ => utc_tz tz
+  | APrim _ _ _ => true
+  | AFixedBin n _ data =>
+    (0 <=? n)%Z && (if (n =? 0)%Z then Nat.eqb (length data) 0 else Nat.eqb (length data mod Z.to_nat n) 0)
+  | AList _ _ _ _ e => construct e
+  | AFixedList _ n _ _ e => (0 <=? n)%Z && construct e
+  | AStruct _ _ fs => forallb (fun mc => construct (snd mc)) fs
+  | AMap _ _ _ _ _ k v => construct k && construct v
+  | ADict k v =>
+    match k, v with
+    | APrim (PInt _) _ _, ABytes (BUtf8 | BLargeUtf8) None _ _ => true
+    | _, _ => false
+    end
+  | AUnion types offs fs =>
+    Nat.eqb (length types) (length offs) && consecutive 0 fs && forallb (fun tmc => construct (snd tmc)) fs
+  end.
+
+(* Deserializer::from_marrow on one column, then get(idx) and deserialize_any of the item *)
+Definition read_top (a : Arr) (idx : nat) : Outcome (option RVal) :=
+  if construct a then
+    if Nat.ltb idx (arr_len a) then omap Some (read a idx) else Ok None
+  else Err.
 
 Fixpoint modelled_arr (a : Arr) : bool :=
   match a with
   | ANull _ | ABool _ _ _ => true
   | APrim k _ _ => modelled_prim k
-  | ABytes _ _ _ _ => true
-  | AList _ _ _ _ e => modelled_arr e
+  | ABytes _ _ _ _ | AView _ _ _ _ | AFixedBin _ _ _ => true
+  | AList _ _ _ _ e | AFixedList _ _ _ _ e => modelled_arr e
   | AStruct _ _ fs => forallb (fun mc => modelled_arr (snd mc)) fs
-  | _ => false
+  | AMap _ _ _ _ _ k v => modelled_arr k && modelled_arr v
+  | ADict k v => modelled_arr k && modelled_arr v
+  | AUnion _ _ fs => forallb (fun tmc => modelled_arr (snd tmc)) fs
   end.
 
 (* ---- slicing with the layout of an Arrow slice ---- *)
 Definition slice_bm (bm : Bitmap) (o : nat) : Bitmap := {| bm_off := bm_off bm + o; bm_data := bm_data bm |}.
 Definition slice_validity (v : option Bitmap) (o : nat) : option Bitmap := option_map (fun bm => slice_bm bm o) v.
+Definition window {A} (l : list A) (o n : nat) : list A := firstn n (skipn o l).
 
 Fixpoint slice_arr (a : Arr) (o l : nat) {struct a} : Arr :=
   match a with
   | ANull _ => ANull l
   | ABool _ v vals => ABool l (slice_validity v o) (slice_bm vals o)
-  | APrim k v vals => APrim k (slice_validity v o) (firstn l (skipn o vals))
-  | ABytes k v offs data => ABytes k (slice_validity v o) (firstn (S l) (skipn o offs)) data
-  | AList k v offs m e => AList k (slice_validity v o) (firstn (S l) (skipn o offs)) m e
+  | APrim k v vals => APrim k (slice_validity v o) (window vals o l)
+  | ABytes k v offs data => ABytes k (slice_validity v o) (window offs o (S l)) data
+  | AView k v descs bufs => AView k (slice_validity v o) (window descs o l) bufs
+  | AFixedBin n v data => AFixedBin n (slice_validity v o) (window data (o * Z.to_nat n) (l * Z.to_nat n))
+  | AList k v offs m e => AList k (slice_validity v o) (window offs o (S l)) m e
+  | AFixedList _ n v m e => AFixedList l n (slice_validity v o) m (slice_arr e (o * Z.to_nat n) (l * Z.to_nat n))
   | AStruct _ v fs => AStruct l (slice_validity v o) (map (fun mc => (fst mc, slice_arr (snd mc) o l)) fs)
-  | other => other
+  | AMap v offs en km vm k x => AMap (slice_validity v o) (window offs o (S l)) en km vm k x
+  | ADict k x => ADict (slice_arr k o l) x
+  | AUnion types offs fs => AUnion (window types o l) (window offs o l) fs
   end.
